@@ -324,6 +324,9 @@ def save(outf, obj):
         obj._save(outf)
     elif hasattr(obj, 'to_dataset'):
         obj=obj.copy()
+        # write the data as they are, not in the dtype of a file that an
+        # ancestor of this image was loaded from
+        obj.encoding = {}
         if obj.name is None:
             obj.name=os.path.splitext(os.path.split(outf)[-1])[0]
         obj.attrs = pack_attrs(obj)
